@@ -1,2 +1,65 @@
+//! C12: placement of the stream in memory.
+
+use super::basic::traced;
 use super::*;
-pub fn c12(_ctx: &Ctx, _subj: &dyn DynSubject, _ty: &Ty, _rep: &mut Report) {}
+use crate::faults::Placed;
+use crate::trace::Event;
+use vmodel::format::pad_to;
+use vmodel::val::GenCfg;
+
+pub fn c12(ctx: &Ctx, subj: &dyn DynSubject, ty: &Ty, rep: &mut Report) {
+    let strat = strategy_for(ctx, ty, GenCfg { max_len: 6, long: false });
+    crate::runner::run_cases(ctx, subj, rep, strat, ctx.cases, &|v, log| {
+        self_check(subj, v)?;
+        let (bytes, events) = traced(subj, v)?;
+        // every alignment the serializer performed: (aligned stream position, unit)
+        let aligns: Vec<(usize, usize)> = events
+            .iter()
+            .filter_map(|e| match e {
+                Event::Align { pos, unit } if *unit > 0 => Some((pos + pad_to(*pos, *unit), *unit)),
+                _ => None,
+            })
+            .collect();
+        let max_unit = aligns.iter().map(|a| a.1).max().unwrap_or(1);
+        log.classes.push(format!("max-unit-{}", max_unit));
+        log.sample = Some(sample_json(subj, v, Some(&bytes), json!({"aligns": aligns.iter().take(8).collect::<Vec<_>>(), "residues": "0..128"})));
+        let mut predicted_fail = 0;
+        for r in 0..128usize {
+            let pl = Placed::new(&bytes, 128, r);
+            let base = pl.addr();
+            let ok = aligns.iter().all(|(p, u)| (base + p) % u == 0);
+            log.extra_evals += 1;
+            if !ok {
+                predicted_fail += 1;
+                log.extra_nontrivial.push(hash_sub(subj.name(), v, "c12", r as u64, 0));
+            }
+            match guard(|| subj.eps(pl.bytes())) {
+                Err(p) => return Err(Fail::new(&format!("place-panic:{}", panic_class(&p)), format!("base residue {}: deserialize_eps panicked: {}", r, p)).env(json!({"residue": r}))),
+                Ok(Ok(o)) => {
+                    if !ok {
+                        return Err(Fail::new("place-accepted-misaligned", format!("base residue {} puts a block off its unit, but deserialize_eps succeeded", r)).env(json!({"residue": r})));
+                    }
+                    if o.val != *v {
+                        return Err(Fail::new("place-mismatch", format!("base residue {}: value differs: {}", r, o.val.show())).env(json!({"residue": r})));
+                    }
+                    for (i, b) in o.borrows.iter().enumerate() {
+                        if b.align > 0 && b.ptr % b.align != 0 {
+                            return Err(Fail::new("place-misaligned-borrow", format!("base residue {}: borrow #{} at {:#x} is misaligned for alignment {}", r, i, b.ptr, b.align)).env(json!({"residue": r})));
+                        }
+                    }
+                }
+                Ok(Err(deser::Error::AlignmentError)) => {
+                    if ok {
+                        return Err(Fail::new("place-refused-aligned", format!("base residue {} aligns every block, but deserialize_eps returned AlignmentError", r)).env(json!({"residue": r})));
+                    }
+                }
+                Ok(Err(e)) => return Err(Fail::new(&format!("place-error:{}", err_name(&e)), format!("base residue {}: unexpected error {:?}", r, e)).env(json!({"residue": r}))),
+            }
+        }
+        log.nontrivial = predicted_fail > 0;
+        if predicted_fail == 0 {
+            log.classes.push("byte-aligned-only".into());
+        }
+        Ok(())
+    });
+}
